@@ -554,6 +554,35 @@ def run(chk):
                 chk.dist('value-equals-own-tag-or-seq')
             if any(x is None for o in ids for x in o):
                 chk.dist('has-None-component')
+        # two local stores on ONE manager-backed pointer, stepped through
+        # adversarial interleavings by C06's cooperative scheduler: every
+        # index handed out must come from a block granted to THAT store only
+        from c06 import run_real as sched_run, judge as sched_judge
+        two = [(1, [[(0, 4), (0, 5)], [(0, 6), (0, 7)]]),
+               (2, [[(0, 4), (1, 5), (0, 6)], [(0, 7), (0, 8), (2, 9)]]),
+               (3, [[(0, 0), (0, 1)], [(0, 5), (0, 1), (0, 6), (0, 7)]])]
+        for b, progs in two:
+            scheds = [[0, 1] * 40, [1, 0] * 40, [0, 0, 1, 1] * 20]
+            scheds += [[0] * k + [1] * 8 + [0] * 8 for k in range(1, 7)]
+            for sc_ in scheds:
+                try:
+                    o = sched_run(b, progs, sc_)
+                    bad = sched_judge(b, o)
+                except Exception as exc:  # pylint: disable=broad-except
+                    o, bad = {}, [f"run raised {type(exc).__name__}: {exc}"]
+                chk.coverage['evaluations'] += 1
+                chk.dist('two-stores-one-pointer-schedules')
+                for x in bad[:1]:
+                    chk.violation(
+                        f"store-two-workers bsize={b}: "
+                        f"{x.split(':')[0].split(' [')[0][:50]}",
+                        {'clause_violated': bad[:5],
+                         'prealloc_block_size': b,
+                         'programs (namespace, value id) per store': progs,
+                         'schedule': o.get('schedule'),
+                         'blocks': o.get('blocks'),
+                         'handed (index, value)': o.get('handed'),
+                         'shared_data': (o.get('shared') or [None])[0]})
         # a manager-backed store used by its creator BEFORE worker
         # processes are forked (real processes)
         if mgr is None:
